@@ -347,3 +347,157 @@ def h_replay_known_race() -> bool:
     post: _
     """
     return replay_race({'ops': ['release', 'clear'], 'value': 1, 'bound': 2})
+
+
+# ---------------------------------------------------------------------------
+# (d) two threads, one of them inside a semaphore operation: the current source of shrink / grow / release is instrumented at
+# statement level (a point before every statement, also inside `with` bodies); at a solver-chosen point at which the semaphore's lock
+# is free the other thread performs one whole operation.  From ANY valid state (value = bound - held, solver-chosen), so histories of
+# any length are covered as far as pairs of overlapping operations go.
+
+import ast as _ast
+import inspect as _inspect
+import textwrap as _textwrap
+import threading as _threading
+
+
+class _SemInstr(_ast.NodeTransformer):
+    def __init__(self):
+        self.count = 0
+
+    def _wrap(self, body):
+        out = []
+        for st in body:
+            st = self.generic_visit(st)
+            self.count += 1
+            call = _ast.Expr(_ast.Call(_ast.Name('__vp_point__', _ast.Load()), [_ast.Name('self', _ast.Load())], []))
+            out.append(_ast.copy_location(call, st))
+            out.append(st)
+        return out
+
+    def generic_visit(self, node):
+        for field in ('body', 'orelse', 'finalbody'):
+            b = getattr(node, field, None)
+            if isinstance(b, list) and b and isinstance(b[0], _ast.stmt):
+                setattr(node, field, self._wrap(b))
+        return node
+
+
+_HOOK = [None]
+
+
+def _instrumented(name):
+    fn = getattr(bp.LaxBoundedSemaphore, name)
+    tree = _ast.parse(_textwrap.dedent(_inspect.getsource(fn)))
+    tr = _SemInstr()
+    tree = tr.generic_visit(tree.body[0])
+    mod = _ast.Module([tree], [])
+    _ast.fix_missing_locations(mod)
+    glb = dict(bp.__dict__)
+    glb['__vp_point__'] = lambda obj: _HOOK[0](obj)
+    ns = {}
+    exec(compile(mod, '<instrumented LaxBoundedSemaphore.%s>' % name, 'exec'), glb, ns)
+    return ns[name], tr.count
+
+
+# regenerated from the current source at every import of this module (i.e. every run), outside the tracer
+_INSTR = {name: _instrumented(name) for name in ('shrink', 'grow', 'release')}
+
+
+class _VCond(_threading.Condition):
+    def wait(self, timeout=None):
+        raise W.WouldBlock()          # a single-threaded run cannot sleep: the scenario is outside the harness (pruned)
+
+
+OPS1 = ('shrink', 'grow', 'release')
+OPS2 = ('release', 'acquire', 'grow', 'shrink')
+
+
+def _interleaved(v, b, held_extra, o1, o2, point, want):
+    # valid state: value = bound - held; held slots are owned by users (jobs in flight)
+    held = b - v
+    s = W.VSemaphore(1)
+    s._cond = _VCond(_threading.Lock())
+    s._value = v
+    s._initial_value = b
+    exp_b = b
+    state = {'n': 0, 'fired': False, 'blocked': False}
+
+    def do(op, obj):
+        nonlocal held, exp_b
+        if op == 'release':
+            if held < 1:
+                raise Prune()             # only a user that holds a slot gives one back
+            bp.LaxBoundedSemaphore.release(obj)
+            held -= 1
+        elif op == 'acquire':
+            if obj.acquire(False):
+                held += 1
+        elif op == 'grow':
+            bp.LaxBoundedSemaphore.grow(obj)
+            exp_b += 1
+        else:
+            bp.LaxBoundedSemaphore.shrink(obj)
+            exp_b -= 1
+
+    def hook(obj):
+        k = state['n']
+        state['n'] += 1
+        if k == point and not state['fired']:
+            if obj._cond._lock.locked():
+                raise Prune()             # the other thread would wait for the lock here: same as firing at the next free point
+            state['fired'] = True
+            do(OPS2[o2], obj)
+    fn, npoints = _INSTR[OPS1[o1]]
+    _HOOK[0] = hook
+    if point >= npoints:
+        raise Prune()
+    if OPS1[o1] == 'release':
+        if held < 1:
+            raise Prune()
+        held -= 1
+    elif OPS1[o1] == 'grow':
+        exp_b += 1
+    else:
+        exp_b -= 1
+    try:
+        fn(s)
+    except W.WouldBlock:
+        return True                       # an operation had to wait for a slot: outside this harness
+    if not state['fired']:
+        raise Prune()
+    if want:
+        return not (OPS1[o1] == 'shrink' and OPS2[o2] == 'release')
+    if not (0 <= s._value <= s._initial_value):
+        return fail('C10:overlap:value-outside-0..bound:%s-during-%s' % (OPS2[o2], OPS1[o1]))
+    if s._initial_value != exp_b:
+        return fail('C10:overlap:bound-differs-from-the-configured-size:%s-during-%s' % (OPS2[o2], OPS1[o1]))
+    if s._value != s._initial_value - held:
+        # a slot was lost (value too small: once everything is given back a slot stays taken) or invented (too large: more jobs
+        # than the configured size can be in flight)
+        return fail('C10:overlap:slots-not-conserved:%s-during-%s' % (OPS2[o2], OPS1[o1]))
+    return True
+
+
+def h_overlap(v: int, b: int, o1: int, o2: int, point: int) -> bool:
+    """
+    pre: 1 <= v <= b and b <= 1000 and 0 <= o1 <= 2 and 0 <= o2 <= 3 and 0 <= point <= 8
+    post: _
+    """
+    from harness.hbase import pick
+    try:
+        return _interleaved(v, b, 0, pick(o1, 0, 2), pick(o2, 0, 3), pick(point, 0, 8), False)
+    except Prune:
+        return True
+
+
+def h_overlap_twin(v: int, b: int, o1: int, o2: int, point: int) -> bool:
+    """
+    pre: 1 <= v <= b and b <= 1000 and 0 <= o1 <= 2 and 0 <= o2 <= 3 and 0 <= point <= 8
+    post: _
+    """
+    from harness.hbase import pick
+    try:
+        return _interleaved(v, b, 0, pick(o1, 0, 2), pick(o2, 0, 3), pick(point, 0, 8), True)
+    except Prune:
+        return True
